@@ -68,9 +68,62 @@ func opConst(sc *drv.Schema, s *drv.Scenario, r *drv.Result) error {
 }
 
 type step struct {
-	Op string      `json:"op"`
-	F  string      `json:"f"`
-	V  interface{} `json:"v"`
+	Op  string      `json:"op"`
+	F   string      `json:"f"`
+	V   interface{} `json:"v"`
+	K   string      `json:"k"`   // mut: "idx" (element 0 of a list/set), "key" (entry of a map), "fld" (field of a nested struct)
+	Key interface{} `json:"key"` // mut/key: the entry's key
+	Fld string      `json:"fld"` // mut/fld: the nested struct's field (IDL name)
+}
+
+// mutate changes the value held by field fv in place (below the field), never the field itself.
+func mutate(sc *drv.Schema, t *drv.SType, fv reflect.Value, sp *step) error {
+	for fv.Kind() == reflect.Ptr {
+		if fv.IsNil() {
+			return fmt.Errorf("nothing to mutate: nil")
+		}
+		fv = fv.Elem()
+	}
+	switch sp.K {
+	case "idx":
+		if fv.Kind() != reflect.Slice || fv.Len() == 0 {
+			return fmt.Errorf("no element 0 in %s", fv.Type())
+		}
+		return drv.Build(sc, t.V, sp.V, fv.Index(0))
+	case "key":
+		if fv.Kind() != reflect.Map || fv.IsNil() {
+			return fmt.Errorf("no map in %s", fv.Type())
+		}
+		k := reflect.New(fv.Type().Key()).Elem()
+		if err := drv.Build(sc, t.K, sp.Key, k); err != nil {
+			return err
+		}
+		if !fv.MapIndex(k).IsValid() {
+			return fmt.Errorf("map has no entry for the key")
+		}
+		e := reflect.New(fv.Type().Elem()).Elem()
+		if err := drv.Build(sc, t.V, sp.V, e); err != nil {
+			return err
+		}
+		fv.SetMapIndex(k, e)
+		return nil
+	case "fld":
+		if fv.Kind() != reflect.Struct {
+			return fmt.Errorf("no struct in %s", fv.Type())
+		}
+		st := sc.Structs[t.S]
+		for _, tg := range drv.Tags(sc, t.S, fv.Type()) {
+			id, _ := tg["id"].(int)
+			name, _ := tg["go_field"].(string)
+			for i := range st.Fields {
+				if st.Fields[i].ID == id && st.Fields[i].Name == sp.Fld && name != "" {
+					return drv.Build(sc, &st.Fields[i].Type, sp.V, fv.FieldByName(name))
+				}
+			}
+		}
+		return fmt.Errorf("no field %q in %s", sp.Fld, t.S)
+	}
+	return fmt.Errorf("unknown mutation %q", sp.K)
 }
 
 func opStruct(sc *drv.Schema, s *drv.Scenario, r *drv.Result) error {
@@ -132,6 +185,23 @@ func opStruct(sc *drv.Schema, s *drv.Scenario, r *drv.Result) error {
 					return
 				}
 				if err := drv.Build(sc, &f.Type, sp.V, cur.Elem().FieldByName(gf)); err != nil {
+					runErr = fmt.Errorf("step %d: %w", i, err)
+					return
+				}
+			case "mut":
+				var f *drv.SField
+				for k := range st.Fields {
+					if st.Fields[k].Name == sp.F {
+						f = &st.Fields[k]
+					}
+				}
+				gf := goField[sp.F]
+				if f == nil || gf == "" {
+					runErr = fmt.Errorf("step %d: no field %q", i, sp.F)
+					return
+				}
+				spc := sp
+				if err := mutate(sc, &f.Type, cur.Elem().FieldByName(gf), &spc); err != nil {
 					runErr = fmt.Errorf("step %d: %w", i, err)
 					return
 				}
